@@ -199,6 +199,15 @@ class PseudotrajCheck(Check):
             elif r < 0.35:
                 q = rng.choice([[1.0, 0, 0, 0], [0, 1.0, 0, 0], [0, 0, 1.0, 0], [0.5, 0.5, 0.5, 0.5],
                                 [-0.5, 0.5, -0.5, 0.5]])
+            elif r < 0.5:
+                # boundary values of the rotation: almost the identity (either sign), almost a half turn
+                ax = random_unit_quaternion(rng)[:3]
+                nn = sum(a * a for a in ax) ** 0.5 or 1.0
+                eps = rng.choice([1e-7, 1e-5, 1e-4, 1e-3, 4e-3, 2e-2])
+                if rng.random() < 0.6:
+                    q = _unit([a / nn * eps for a in ax] + [rng.choice([1.0, -1.0])])
+                else:
+                    q = _unit([a / nn for a in ax] + [rng.choice([eps, -eps])])
             else:
                 q = random_unit_quaternion(rng)
             r = rng.random()
@@ -679,7 +688,7 @@ class AssignmentCheck(Check):
                     p = [a + 0.3 for a in p]
             frames.append([*p, *q])
         shift = [0.0, 0.0, 0.0] if rng.random() < 0.8 else [rng.uniform(-5, 5) for _ in range(3)]
-        stop = None if rng.random() < 0.85 else rng.randint(1, n)
+        stop = None if rng.random() < 0.8 else rng.choice([1, n // 2 or 1, n - 1 or 1, n, n, rng.randint(1, n)])
         return {"kind": "walk", **common, "mode": mode, "shift": shift, "stop": stop, "ops": frames}
 
     def execute(self, sc):
